@@ -608,7 +608,67 @@ def camp_sim(ctx):
           budget_s=160 if ctx.tier == 'quick' else 1500)
 
 
+# ---------------------------------------------------------------------------------------------
+# (a3) the value a hard-limited block puts out, for every sign convention of its limits
+# ---------------------------------------------------------------------------------------------
+
+@st.composite
+def gain_limiter_cases(draw):
+    sl, su = draw(st.sampled_from([(1, 1), (-1, 1), (-1, -1)]))
+    a = draw(st.sampled_from([0.2, 0.5, 1.0, 2.0]))
+    b = draw(st.sampled_from([0.3, 0.7, 1.5, 3.0]))
+    if (sl, su) == (1, 1):
+        lower, upper = min(a, b), max(a, b)            # limits [lower, upper]
+    elif (sl, su) == (-1, 1):
+        lower, upper = a, b                            # limits [-lower, upper]
+    else:
+        lower, upper = max(a, b), min(a, b)            # limits [-lower, -upper]
+    return dict(sl=sl, su=su, lower=lower, upper=upper, K=draw(st.sampled_from([0.5, 1.0, 2.5])), R=draw(st.sampled_from([1.0, 2.0, 0.4])),
+                u=draw(st.sampled_from([-4.0, -1.2, -0.6, -0.1, 0.0, 0.25, 0.8, 1.1, 5.0])))
+
+
+def gain_limiter_case(ctx, c):
+    from . import c18
+    from ..oracle import pyeval
+    key = 'GL_%d_%d' % (c['sl'], c['su'])
+    if key not in c18.BLOCKS:
+        sl, su = c['sl'], c['su']
+        c18.BLOCKS[key] = dict(cls='GainLimiter', params=['K', 'R', 'lower', 'upper'], H=None,
+                               kw=lambda m, sl=sl, su=su: dict(u=m.u, K=m.K, R=m.R, lower=m.lower, upper=m.upper, sign_lower=sl, sign_upper=su))
+    model = c18.harness_model(key)
+    d = model.discrete['B_lim']
+    x = c['K'] * c['u']
+    saved = (d.u, d.lower, d.upper)
+    d.u, d.lower, d.upper = Holder([x], 'B_x'), Holder([c['lower']], 'lower'), Holder([c['upper']], 'upper')
+    try:
+        d.list2array(1)
+        d.check_var()
+        flags = {nm: float(np.asarray(getattr(d, f)).ravel()[0]) for nm, f in zip(d.get_names(), d.export_flags)}
+    finally:
+        d.u, d.lower, d.upper = saved
+    ns = dict(K=c['K'], R=c['R'], lower=c['lower'], upper=c['upper'], u=c['u'], B_x=x, B_y=0.0)
+    ns.update(flags)
+    y = float(np.real(pyeval.evaluate(model.cache.all_vars['B_y'].e_str, pyeval.Namespace(ns))))       # e_str is (value - B_y)
+    y0 = float(np.real(pyeval.evaluate(model.cache.all_vars['B_y'].v_str, pyeval.Namespace(ns))))
+    lo, up = c['sl'] * c['lower'], c['su'] * c['upper']
+    want = c['R'] * min(max(x, lo), up)
+    ctx.count('gain_limiter:signs=%d,%d:%s' % (c['sl'], c['su'], 'lower' if x <= lo else 'upper' if x >= up else 'inside'))
+    if abs(y - want) > 1e-12 * (1 + abs(want)) or abs(y0 - want) > 1e-12 * (1 + abs(want)):
+        ctx.fail('limited_block_output_wrong', dict(case=c, output=y, initial_value=y0, documented=want, limits=[lo, up], flags=flags),
+                 sig=dict(block='GainLimiter', signs=[c['sl'], c['su']]))
+    if x <= lo or x >= up:
+        ctx.nontrivial(c, sample=dict(c, output=y, documented=want))
+
+
+def camp_limited_output(ctx):
+    def body(c):
+        ctx.evaluated()
+        gain_limiter_case(ctx, c)
+    drive(ctx, gain_limiter_cases(), body, 150 if ctx.tier == 'quick' else 2000, name='limited_output', shrink=True)
+
+
 CAMPAIGNS = {
+    'limited_output': dict(fn=camp_limited_output, shards=dict(quick=1, thorough=2)),
     'memoryless': dict(fn=camp_memoryless, shards=dict(quick=2, thorough=8)),
     'history': dict(fn=camp_history, shards=dict(quick=4, thorough=8)),
     'simulation': dict(fn=camp_sim, shards=dict(quick=10, thorough=16)),
@@ -616,6 +676,8 @@ CAMPAIGNS = {
 
 
 def replay(ctx, rec):
+    if isinstance(rec.get('case'), dict) and 'sl' in rec['case']:
+        return gain_limiter_case(ctx, rec['case'])
     c = rec['case']
     if 'kind' in c:
         limiter_case(ctx, c)
